@@ -1183,7 +1183,7 @@ func init() {
 			"the five fixture certificates (P-256 and P-384 leaves, one CA, 355..470 bytes of DER) stand for all certificates: the code treats DER as an opaque byte string on write and hands it to crypto/x509 on read",
 			"byte-for-byte equality is bytes.Equal; whether an absent sct is read back as nil or empty is recorded, not judged",
 		},
-		Harnesses: []*mc.Harness{roundtrip, histories, certs, hostile, sct, c17LongChains()},
+		Harnesses: []*mc.Harness{roundtrip, histories, certs, hostile, sct, c17LongChains(), c17BlobLengths()},
 		Guard: func(s map[string]*mc.Stats) error {
 			need := func(h, class string, min int64) error {
 				if s[h] == nil {
